@@ -315,6 +315,9 @@ class CallMixin:
                 res.append(self.call_closure(t[1], self._flat(args), kw, node))
             elif t[0] == 'cb':
                 res.append(self.call_callback(t[1], self._flat(args), kw, node))
+            elif t[0] == 'bound':                # method object taken from an instance of a teneva class
+                res.append(self.call_teneva(f'{t[1]}.{t[2]}', list(args), kw, node,
+                                            recv=AV(['obj'], org=['P:self'] if self.self_cls == t[1] else [], cls='teneva:' + t[1])))
         if fav.may('obj') and fav.cls and fav.cls.startswith('teneva:'):
             handled = True
             res.append(self.call_method_contract(fav, '__call__', self._flat(args), kw, node))
